@@ -175,7 +175,7 @@ fn gen_cfg(rng: &mut Rng, pool: &[(Syllable, Vec<KeyCode>)]) -> Cfg {
     let layout_kind = if rng.chance(2, 3) { 0 } else { rng.below(10) as u8 };
     let mut o = EditorOptions::default();
     for _ in 0..rng.below(4) {
-        o = gen_opts(rng, &o, engine_kind);
+        o = gen_opts(rng, &o, engine_kind, false);
     }
     Cfg { sys, engine_kind, layout_kind, opts: o, time: rng.below(3) * 5000, user: (vec![], vec![]) }
 }
@@ -390,7 +390,7 @@ fn pair_getters(out: &mut Out, rng: &mut Rng, pool: &[(Syllable, Vec<KeyCode>)],
     let mut hist: Vec<String> = vec![];
     ps.g_sessions += 1;
     for _ in 0..n_ops {
-        let op = gen_op(rng, &a, pool, &mut pending, uniform);
+        let op = gen_op(rng, &a, pool, &mut pending, uniform, false, None);
         let ev = event(&op);
         // the burst: any getters, any number, repeated, before the operation on twin B only
         let burst = if rng.chance(1, 3) { 0 } else { 1 + rng.below(6) };
@@ -435,7 +435,7 @@ fn pair_reset(out: &mut Out, rng: &mut Rng, pool: &[(Syllable, Vec<KeyCode>)], c
     let want_selecting = rng.chance(1, 2);
     let mut i = 0;
     loop {
-        let op = gen_op(rng, &a, pool, &mut pending, false);
+        let op = gen_op(rng, &a, pool, &mut pending, false, false, None);
         let ev = event(&op);
         hist.push(op_s(&op, &ev));
         if apply(&mut a, &op, ev).is_err() {
@@ -512,7 +512,7 @@ fn pair_reset(out: &mut Out, rng: &mut Rng, pool: &[(Syllable, Vec<KeyCode>)], c
     let dict_at_reset = user_dict_no_time(&a);
     let mut learned = false;
     for _ in 0..n_ops {
-        let op = gen_op(rng, &a, pool, &mut pending, false);
+        let op = gen_op(rng, &a, pool, &mut pending, false, false, None);
         let ev = event(&op);
         hist.push(op_s(&op, &ev));
         let ra = apply(&mut a, &op, ev);
@@ -558,13 +558,13 @@ fn pair_contexts(out: &mut Out, rng: &mut Rng, pool: &[(Syllable, Vec<KeyCode>)]
         let (stop, counter) = (stop.clone(), counter.clone());
         let seed = cfg_seed ^ 0xABCD;
         Some(std::thread::spawn(move || {
-            let pool = super::pool();
+            let pool = super::pool(false);
             let cfg_c = gen_cfg(&mut Rng::new(seed), &pool);
             let mut c = build(&cfg_c, false);
             let mut rng_c = Rng::new(seed.wrapping_add(1));
             let mut pending_c = vec![];
             while !stop.load(std::sync::atomic::Ordering::Relaxed) {
-                let op = gen_op(&mut rng_c, &c, &pool, &mut pending_c, false);
+                let op = gen_op(&mut rng_c, &c, &pool, &mut pending_c, false, false, None);
                 let ev = event(&op);
                 if apply(&mut c, &op, ev).is_err() {
                     c = build(&cfg_c, false);
@@ -580,11 +580,11 @@ fn pair_contexts(out: &mut Out, rng: &mut Rng, pool: &[(Syllable, Vec<KeyCode>)]
     let mut hist: Vec<String> = vec![];
     let uniform = rng.chance(1, 8);
     for _ in 0..n_ops {
-        let op = gen_op(rng, &a, pool, &mut pending, uniform);
+        let op = gen_op(rng, &a, pool, &mut pending, uniform, false, None);
         let ev = event(&op);
         // operations of the other context between two operations of A'
         for _ in 0..rng.below(4) {
-            let opb = gen_op(&mut rng_b, &b, pool, &mut pending_b, false);
+            let opb = gen_op(&mut rng_b, &b, pool, &mut pending_b, false, false, None);
             let evb = event(&opb);
             hist.push(format!("B:{}", op_s(&opb, &evb)));
             if apply(&mut b, &opb, evb).is_err() {
@@ -618,7 +618,7 @@ fn pair_contexts(out: &mut Out, rng: &mut Rng, pool: &[(Syllable, Vec<KeyCode>)]
 }
 
 pub fn run_pairs(out: &mut Out, seed: u64, thorough: bool) {
-    let pool = pool();
+    let pool = pool(false);
     let n: u64 = if thorough { 4000 } else { 220 };
     let n_ops: u64 = 40;
     let mut ps = PairStats {
